@@ -214,3 +214,62 @@ Proof.
   rewrite nth_error_app2; rewrite map_length; [|apply Nat.le_refl].
   now rewrite Nat.sub_diag.
 Qed.
+
+(* ---- which context the call runs under ---- *)
+Lemma governed_by_run o c timeout action : governed_by o c timeout action (run_under o c timeout action) = true.
+Proof.
+  unfold governed_by, run_under. cbn [n_value n_deadline n_ended n_failed].
+  now rewrite !Nat.eqb_refl, !Bool.eqb_reflx.
+Qed.
+
+Lemma governed_by_unique o c timeout action s :
+  governed_by o c timeout action s = true -> s = run_under o c timeout action.
+Proof.
+  unfold governed_by, run_under. destruct s as [v d e f]. cbn [n_value n_deadline n_ended n_failed].
+  intros H. apply andb_true_iff in H as [H H4]. apply andb_true_iff in H as [H H3].
+  apply andb_true_iff in H as [H1 H2].
+  apply Nat.eqb_eq in H1, H2. apply Bool.eqb_prop in H3, H4. now subst.
+Qed.
+
+Lemma right_context_submit op rt timeout action :
+  right_context op rt timeout action (submit_context op rt timeout action) = true.
+Proof.
+  destruct op as [c|]; [apply governed_by_run|]. destruct rt as [c|]; [apply governed_by_run|].
+  cbn. now rewrite Nat.eqb_refl.
+Qed.
+
+Lemma right_context_unique op rt timeout action s :
+  right_context op rt timeout action s = true -> s = submit_context op rt timeout action.
+Proof.
+  destruct op as [c|]; [apply governed_by_unique|]. destruct rt as [c|]; [apply governed_by_unique|].
+  cbn [right_context submit_context]. destruct s as [v d e f]. cbn [n_value n_deadline n_ended n_failed who_code].
+  intros H. apply andb_true_iff in H as [H H4]. apply andb_true_iff in H as [H H3].
+  apply andb_true_iff in H as [H1 H2]. apply Nat.eqb_eq in H1, H2.
+  destruct e; [discriminate|]. destruct f; [discriminate|]. now subst.
+Qed.
+
+(* with an operation context the runtime context plays no part: not its values, not its deadline (however early),
+   not its cancellation *)
+Lemma op_context_alone c rt rt' timeout action :
+  submit_context (Some c) rt timeout action = submit_context (Some c) rt' timeout action.
+Proof. reflexivity. Qed.
+
+(* a call run under the runtime context instead is always told apart: the value that arrives is the wrong one *)
+Lemma other_context_rejected c rt c' timeout action :
+  right_context (Some c) rt timeout action (run_under FromTransport c' timeout action) = false.
+Proof. reflexivity. Qed.
+
+(* cancelling the operation context during the call ends it; cancelling the runtime context does not *)
+Lemma op_cancel_ends_call c rt timeout :
+  n_ended (submit_context (Some c) rt timeout 1) = true /\
+  n_ended (submit_context (Some c) rt timeout 2) = x_cancelled c.
+Proof.
+  split; cbn; [apply orb_true_r|]. now rewrite orb_false_r.
+Qed.
+
+Example ex_runtime_deadline_does_not_take_over :
+  (* operation context without a deadline, runtime context with one, no request timeout, the operation context
+     cancelled during the call: the operation's value arrives, no deadline, the call ends *)
+  submit_context (Some (mkctx 0 false)) (Some (mkctx 3 false)) 0 1 = mkseen 0 0 true true /\
+  right_context (Some (mkctx 0 false)) (Some (mkctx 3 false)) 0 1 (run_under FromTransport (mkctx 3 false) 0 1) = false.
+Proof. split; reflexivity. Qed.
